@@ -359,10 +359,23 @@ class Interp:
         key = f"{fv.module.name}.{fv.qualname}"
         if key in self.summaries and self.depth > 0:
             self.used_summaries.add(key)
-            full = list(args)
-            if fv.bound is not None:
-                full = [fv.bound] + full
-            return self.summaries[key](self, full, kwargs)
+            # the callee contract receives the call normalised against the callee's REAL signature: every parameter in
+            # positional order with its default filled in (and again by name), so that a call site that omits / renames /
+            # reorders an argument is seen by the contract exactly as CPython would bind it (TypeError paths included)
+            env = self.bind_args(fv, args, kwargs)
+            a = fv.node.args
+            params = [x.arg for x in a.posonlyargs + a.args]
+            if a.vararg is None and a.kwarg is None:
+                full = [env[p] for p in params]
+                kw = dict(kwargs)           # what the call site passed by keyword stays visible by name as well
+                for x in a.kwonlyargs:
+                    kw.setdefault(x.arg, env[x.arg])
+            else:
+                full = list(args)
+                if fv.bound is not None:
+                    full = [fv.bound] + full
+                kw = kwargs
+            return self.summaries[key](self, full, kw)
         if self.depth > 0:
             self.inlined.add(key)
         node = fv.node
@@ -431,7 +444,13 @@ class Interp:
             cache[key] = v
             if isinstance(v, A.Arr):
                 st.origin[v.sid] = f"default argument {pname} of {fv.qualname}"
-        return cache[key]
+                cache[("cell",) + key] = st.heap[v.sid]
+        v = cache[key]
+        if isinstance(v, A.Arr) and v.sid not in st.heap and ("cell",) + key in cache:
+            # the default object was created on another path (a fork made before it existed here): the same object,
+            # with the content it had at creation
+            st.heap[v.sid] = cache[("cell",) + key]
+        return v
 
     # ------------------------------------------------------------------ statements
     def exec_body_single(self, stmts, frame):
